@@ -90,10 +90,10 @@ fn gen_prim(g: &mut Gen, c: &mut GenCtx) -> Prim {
             Prim::Fprint0(format!("c/out{}", c.files))
         }
         11 => {
-            if g.chance(1, 3) {
-                Prim::Exec(g.bool())
-            } else {
-                Prim::True
+            match g.below(6) {
+                0 | 1 => Prim::Exec(g.bool()),
+                2 => Prim::ExecPlus(g.bool()),
+                _ => Prim::True,
             }
         }
         12 => Prim::Prune,
@@ -230,8 +230,9 @@ fn check_tokens_with(mut ctx: Option<&mut Ctx>, roots: &[String], tokens: &[Stri
             return fail(format!("C01:fprint-file-differs:{}", sigctx()), format!("{cmdline}\nfile {f}: expected {:?}\nactual {:?}", lossy(want), lossy(&got)));
         }
     }
-    if status != 0 {
-        return fail("C01:nonzero-exit", format!("{cmdline}\nexit status {status}, stderr {:?}", lossy(&stderr)));
+    // (a failing `-exec false {} +` batch is the only source of a non-zero status in these trees)
+    if (status != 0) != ev.out.failing_batch {
+        return fail(if status != 0 { "C01:nonzero-exit" } else { "C01:exit-0-although-a-batch-failed" }, format!("{cmdline}\nexit status {status}, stderr {:?}", lossy(&stderr)));
     }
     let kinds = parsed.op_kinds().count_ones();
     let mut action_under_not = false;
